@@ -561,8 +561,8 @@ func (e *Env) expandMacro(m *Macro, args []Val) Val {
 }
 
 func (e *Env) quant(kind string, n *ast.CallExpr) Val {
-	if len(n.Args) != 4 {
-		e.fail("%s(k, lo, hi, body)", kind)
+	if len(n.Args) != 4 && !(len(n.Args) == 5 && kind == "forall") {
+		e.fail("%s(k, lo, hi, body[, trigger])", kind)
 	}
 	id, ok := n.Args[0].(*ast.Ident)
 	if !ok {
@@ -595,6 +595,14 @@ func (e *Env) quant(kind string, n *ast.CallExpr) Val {
 	sub.vars[id.Name] = Val{T: k, Ty: intT, S: "Int"}
 	body := sub.evalBool(n.Args[3])
 	rng := and(icmp("<=", lo.T, k), icmp("<", k, hi.T))
+	if len(n.Args) == 5 {
+		// explicit trigger term (it must mention the bound variable)
+		pat := sub.eval(n.Args[4]).T
+		if !strings.Contains(pat, k) {
+			e.fail("forall: the trigger does not mention %s", id.Name)
+		}
+		return bval(fmt.Sprintf("(forall ((%s Int)) (! %s :pattern (%s)))", k, implies(rng, body), pat))
+	}
 	if kind == "forall" {
 		// Re-index by the absolute array index when the bound variable is used
 		// as "(+ OFF k)" with a single offset term: the array read then is an
@@ -900,6 +908,15 @@ func (e *Env) callExpr(n *ast.CallExpr) Val {
 		// unbox(x): the reference held by an interface value
 		v := arg(0)
 		return e.ival(app("i_val", v.T))
+	case "addr":
+		// addr(s, i): the pointer &s[i] (interior pointer to element i of slice s)
+		sv, iv := arg(0), arg(1)
+		st, ok := sv.Ty.Underlying().(*types.Slice)
+		if !ok || !u.interior(st.Elem()) {
+			e.fail("addr: %s is not a slice of a type whose elements have their address taken", exprString(n.Args[0]))
+		}
+		u.elemRefFuns()
+		return Val{T: app("elemref", app("s_arr", sv.T), iadd(app("s_off", sv.T), iv.T)), Ty: types.NewPointer(st.Elem()), S: "Int"}
 	case "ptr":
 		// ptr(x, "pkg.Type"): reinterpret an integer reference as *Type
 		v := arg(0)
@@ -999,6 +1016,22 @@ func (u *Unit) axiomsFor(name string) {
 			continue
 		}
 		if ax.Lemma {
+			if u.lemmaLimit > 0 && ax.Index >= u.lemmaLimit-1 {
+				continue
+			}
+			if ax.Aux && u.lemmaLimit == 0 {
+				continue
+			}
+			ready := true
+			for _, t := range ax.Trigger {
+				if u.eng.lib.Preds[t] != nil && !u.declFuns[t] {
+					ready = false
+				}
+			}
+			if ready {
+				u.axiomsDone[ax.Name] = true
+				u.emitLemma(ax)
+			}
 			continue
 		}
 		all := len(ax.Trigger) > 0
@@ -1022,6 +1055,53 @@ func (u *Unit) axiomsFor(name string) {
 			u.assumed["axiom "+ax.Name+": "+ax.Text] = true
 		}
 	}
+}
+
+// emitLemma adds a proved lemma as a quantified fact with its declared trigger.
+func (u *Unit) emitLemma(ax *Axiom) {
+	env := u.newEnv(nil)
+	env.noHeap = true
+	var binders []string
+	for _, p := range ax.Params {
+		bn := p + "!l"
+		binders = append(binders, "("+bn+" Int)")
+		env.vars[p] = Val{T: bn, Ty: intT, S: "Int"}
+	}
+	body := env.evalBool(ax.Expr)
+	var pats []string
+	for _, pe := range ax.Pats {
+		pats = append(pats, env.eval(pe).T)
+	}
+	u.emit(fmt.Sprintf("(assert (forall (%s) (! %s :pattern (%s))))", strings.Join(binders, " "), body, strings.Join(pats, " ")))
+	if u.lemmasUsed == nil {
+		u.lemmasUsed = map[string]bool{}
+	}
+	u.lemmasUsed[ax.Name] = true
+}
+
+// lemmaObligation: the proof obligation of a lemma.  With "by v" it is proved by
+// strong induction on v: the statement may be assumed for every v' with 0 <= v' < v
+// (for v < 0 that is nothing, so the statement must then hold outright).
+func (e *Engine) lemmaObligation(ax *Axiom, prop string) *Oblig {
+	u := e.newUnit(nil, nil, "lemma:"+ax.Name)
+	u.prop = prop
+	u.lemmaLimit = ax.Index + 1
+	env := u.newEnv(nil)
+	env.noHeap = true
+	for _, p := range ax.Params {
+		c := u.fresh("l_"+p, "Int")
+		env.vars[p] = Val{T: c, Ty: intT, S: "Int"}
+	}
+	goal := env.evalBool(ax.Expr)
+	if ax.By != "" {
+		ih := env.clone()
+		bn := ax.By + "!ih"
+		ih.vars[ax.By] = Val{T: bn, Ty: intT, S: "Int"}
+		u.assume(fmt.Sprintf("(forall ((%s Int)) (=> (and (<= 0 %s) (< %s %s)) %s))", bn, bn, bn, env.vars[ax.By].T, ih.evalBool(ax.Expr)))
+	}
+	o := u.oblig("lemma", "lemma "+ax.Name+": "+ax.Text, goal, nil)
+	o.Pos = ax.Where
+	return o
 }
 
 func (e *Env) seqeq(s, q, a, b Val) string {
@@ -1103,17 +1183,12 @@ func (e *Env) bitsSpec(name string, s, p, n Val) Val {
 	if okp && okn && nl.Sign() >= 0 && nl.Cmp(big.NewInt(64)) <= 0 && pl.Sign() >= 0 {
 		return e.ival(u.bitsLiteral(name, arr, off, uint(pl.Uint64()), uint(nl.Uint64())))
 	}
-	if okn && nl.Sign() > 0 && nl.Cmp(big.NewInt(64)) <= 0 && !strings.Contains(p.T, "!q") && !strings.Contains(p.T, "!j") && !strings.Contains(p.T, "!d") {
-		// literal width, symbolic position: eight alignments, each the byte arithmetic
-		// at byte index off + p div 8 (the position is named so that the term stays small)
-		pn := u.define("bitpos", "Int", p.T)
-		bi := u.define("bytepos", "Int", iadd(off, idivc(pn, big.NewInt(8))))
-		al := u.define("bitalign", "Int", imodc(pn, big.NewInt(8)))
-		t := u.bitsLiteral(name, arr, bi, 7, uint(nl.Uint64()))
-		for a := 6; a >= 0; a-- {
-			t = ite(eq(al, ilit(int64(a))), u.bitsLiteral(name, arr, bi, uint(a), uint(nl.Uint64())), t)
-		}
-		return e.ival(t)
+	if okn && nl.Sign() > 0 && nl.Cmp(big.NewInt(64)) <= 0 {
+		// literal width, symbolic position: an uninterpreted function of (bytes, absolute bit
+		// position) per width, defined by an axiom as the byte arithmetic at the position's
+		// alignment (eight cases); solvers unfold it only where needed, and equal positions
+		// give equal values by congruence
+		return e.ival(u.bitsAtSymbolic(name, arr, iadd(imul("8", off), p.T), uint(nl.Uint64())))
 	}
 	return e.ival(u.bitsTerm(name, arr, iadd(imul("8", off), p.T), n.T))
 }
@@ -1139,7 +1214,7 @@ func (u *Unit) bitsLiteral(name, arr, off string, p, n uint) string {
 	}
 	trailing := 8*(hi+1) - (p + n)
 	t := idivc(v, pow2(trailing))
-	if trailing+n < 8*nb {
+	if trailing+n < 8*nb || u.forceMod {
 		t = imodc(t, pow2(n))
 	}
 	if name == "sbits" {
@@ -1162,6 +1237,20 @@ func (u *Unit) usePred(pr *Pred) {
 	}
 	// parameters written seq[<type key>] are sequences of that Go type
 	for i, srt := range pr.Sorts {
+		if strings.HasPrefix(srt, "val[") && strings.HasSuffix(srt, "]") {
+			// a single value of that Go type
+			t := u.eng.typeByKey(srt[4 : len(srt)-1])
+			if t == nil {
+				panic(specError{"unknown type in " + srt})
+			}
+			if u.valParamTypes == nil {
+				u.valParamTypes = map[string]types.Type{}
+			}
+			u.valParamTypes[pr.Name+"/"+pr.Params[i]] = t
+			pr = &Pred{Ret: pr.Ret, Name: pr.Name, Params: pr.Params, Sorts: append([]string(nil), pr.Sorts...), Body: pr.Body, Text: pr.Text, Where: pr.Where}
+			pr.Sorts[i] = u.so.sortOf(t)
+			continue
+		}
 		if strings.HasPrefix(srt, "seq[") && strings.HasSuffix(srt, "]") {
 			t := u.eng.typeByKey(srt[4 : len(srt)-1])
 			if t == nil {
@@ -1191,6 +1280,8 @@ func (u *Unit) usePred(pr *Pred) {
 			ty = &seqType{elem: types.Typ[types.Uint8]}
 		} else if et := u.seqElemTypes[pr.Name+"/"+p]; et != nil {
 			ty = &seqType{elem: et}
+		} else if vt := u.valParamTypes[pr.Name+"/"+p]; vt != nil {
+			ty = vt
 		}
 		env.vars[p] = Val{T: bn, Ty: ty, S: pr.Sorts[i]}
 	}
@@ -1201,7 +1292,24 @@ func (u *Unit) usePred(pr *Pred) {
 		body = env.evalBool(pr.Body)
 	}
 	head := app(pr.Name, names...)
-	u.emit(fmt.Sprintf("(assert (forall (%s) (! (= %s %s) :pattern (%s))))", strings.Join(binders, " "), head, body, head))
+	if pr.Ret == "Int" && u.lemmaLimit == 0 && strings.Contains(body, "("+pr.Name+" ") {
+		// Recursive specification function in a function unit: unfold one level only.  The
+		// recursive occurrence is the twin symbol name!0, which has no definition of its own and
+		// equals name(...) on every argument tuple where a term name(...) exists (so a chain of
+		// unfoldings cannot feed itself; lemma obligations, which need induction, use the plain
+		// recursive definition).
+		twin := pr.Name + "!0"
+		u.declFun(twin, "("+strings.Join(pr.Sorts, " ")+") "+pr.Ret)
+		body = strings.ReplaceAll(body, "("+pr.Name+" ", "("+twin+" ")
+		u.emit(fmt.Sprintf("(assert (forall (%s) (! (= %s (%s %s)) :pattern (%s))))", strings.Join(binders, " "), head, twin, strings.Join(names, " "), head))
+	}
+	def := fmt.Sprintf("(assert (forall (%s) (! (= %s %s) :pattern (%s))))", strings.Join(binders, " "), head, body, head)
+	if u.opaque[pr.Name] {
+		u.hiddenDefs[pr.Name] = def
+	} else {
+		u.emit(def)
+	}
+	u.axiomsFor(pr.Name)
 }
 
 // singleOffset: the bound variable k is used as an array index "(+ OFF k)"
@@ -1334,4 +1442,39 @@ func litOf(so *Sorts, name string) (string, bool) {
 		}
 	}
 	return "", false
+}
+
+// bitsAtSymbolic: bits / sbits of literal width n at a symbolic absolute bit position.
+func (u *Unit) bitsAtSymbolic(name, arr, pos string, n uint) string {
+	fn := fmt.Sprintf("%sL%d", name, n)
+	if !u.declFuns[fn] {
+		u.declFun(fn, "((Array Int Int) Int) Int")
+		// definitional axiom
+		A, P := "A!b", "p!b"
+		bi := idivc(P, big.NewInt(8))
+		al := imodc(P, big.NewInt(8))
+		save := u.lines
+		u.forceMod = true // the defining term is in range for every array, whatever its cells hold
+		defer func() { u.forceMod = false }()
+		t := u.bitsLiteral(name, A, bi, 7, n)
+		for a := 6; a >= 0; a-- {
+			t = ite(eq(al, ilit(int64(a))), u.bitsLiteral(name, A, bi, uint(a), n), t)
+		}
+		u.lines = save // bitsLiteral's byte-range assumptions mention bound variables: drop them
+		rng := ""
+		if name == "bits" {
+			rng = fmt.Sprintf(" (<= 0 (%s %s %s)) (< (%s %s %s) %s)", fn, A, P, fn, A, P, ilitB(pow2(n)))
+		} else {
+			rng = fmt.Sprintf(" (<= %s (%s %s %s)) (< (%s %s %s) %s)", ilitB(new(big.Int).Neg(pow2(n-1))), fn, A, P, fn, A, P, ilitB(pow2(n-1)))
+		}
+		if u.ct != nil && u.ct.BitsDef {
+			u.emit(fmt.Sprintf("(assert (forall ((%s (Array Int Int)) (%s Int)) (! (and (= (%s %s %s) %s)%s) :pattern ((%s %s %s)))))", A, P, fn, A, P, t, rng, fn, A, P))
+		} else {
+			// Only the range is given by default: proofs about fields at symbolic positions go by
+			// congruence (same bytes, same position, same value); the byte-arithmetic definition
+			// (contract directive "bitsdef") is a large case split that is rarely needed.
+			u.emit(fmt.Sprintf("(assert (forall ((%s (Array Int Int)) (%s Int)) (! (and%s) :pattern ((%s %s %s)))))", A, P, rng, fn, A, P))
+		}
+	}
+	return app(fn, arr, pos)
 }
